@@ -30,6 +30,7 @@ type Config struct {
 
 type stats struct {
 	assertQueries int64
+	portfolio     int64
 }
 
 type Job struct {
